@@ -195,6 +195,24 @@ impl<I: Interner> InferenceTable<I> {
     }
 }
 
+/// Verification hook H5 (compiled only with `--cfg chalk_verif`): read-only view of the
+/// state of one inference variable, for dumping a table without going through canonicalization.
+#[cfg(chalk_verif)]
+impl<I: Interner> InferenceTable<I> {
+    /// `Some(universe)` if `var` is unbound, `None` if it is bound.
+    pub fn verif_universe_of_var(&mut self, var: InferenceVar) -> Option<UniverseIndex> {
+        match self.unify.probe_value(EnaVariable::from(var)) {
+            InferenceValue::Unbound(ui) => Some(ui),
+            InferenceValue::Bound(_) => None,
+        }
+    }
+
+    /// Number of inference variables created so far.
+    pub fn verif_num_vars(&self) -> usize {
+        self.vars.len()
+    }
+}
+
 pub trait ParameterEnaVariableExt<I: Interner> {
     fn to_generic_arg(&self, interner: I) -> GenericArg<I>;
 }
